@@ -104,7 +104,7 @@ K['vf_ceseq_r'] = ([OS, FR('on', 'ids') + ' && __CPROVER_is_fresh(fail, 4)'], OW
 
 def make(tier):
     P = Plan('C05', level='proof', design_ref='DESIGN.md section 5 C05')
-    P.not_decided += ['the same algorithms on heap containers (std::vector steals the buffer on move; the contracts here are checked on a fixed-capacity container of the instrumented type): algorithm::fold_break / map_optional / reverse, container::pop_front / make_move_range, optional / either::sequence, grid::map / apply / resize, tree constructors, options / parse constructors',
+    P.not_decided += ['the same algorithms on heap containers (std::vector steals the buffer on move; the contracts here are checked on a fixed-capacity container of the instrumented type): algorithm::fold_break / map_optional / reverse, container::pop_front / make_move_range, grid::map / apply / resize (std::vector of a non-trivial element: 20 GB exhausted, experiments/C05_grid_trk), tree::map, options / parse constructors',
                       'record::permute / multiply_disjoint / map, array::join / from_range, tuple::push_back (not built)']
     P.meta += ['the element type records copies, moves and reads of moved-from objects in ghost counters per element id; by parametricity the contracts carry over to every element type, in particular move-only ones (a copy would not compile there)']
     spec = ''
@@ -122,4 +122,20 @@ def make(tier):
     for f, (req, asg, ens, what) in K.items():
         uk.contract(f, cls='W', unwind=10, backends=['sat', 'cvc5'], what=what, native=False, timeout=900,
                     bound='fixed-capacity container (capacity 4) with symbolic size <= 3 (join: 2 + 2): every loop is bounded by the capacity, unwinding assertions on; complete for this container type')
+    # ---- tree of instrumented values (std::list nodes; lemma jobs without --dfcc as in C09)
+    NOC = '  __CPROVER_assert(c_copy == m_copy, "no value is copied");\n  __CPROVER_assert(c_readmoved == m_readmoved, "no read of a moved-from value");\n  VF_PROBE(); }\n'
+    ht = ('void h_tree_trk_build(void){ VF_IN(u32, a); VF_IN(u32, b); VF_IN(u32, c); __CPROVER_assume(a < 7 && b < 7 && c < 7 && a != b && a != c && b != c); u32 bad = vf_tree_trk_build(a, b, c);\n'
+          '  __CPROVER_assert((bad & 1u) == 0, "tree(T&&), push_back(T&&), push_back(tree&&): the values are in place");\n' + NOC +
+          'void h_tree_trk_move(void){ VF_IN(u32, a); VF_IN(u32, b); __CPROVER_assume(a < 7 && b < 7 && a != b); u32 bad = vf_tree_trk_move(a, b);\n'
+          '  __CPROVER_assert((bad & 1u) == 0, "tree(tree&&) takes over value and children");\n' + NOC +
+          'void h_tree_trk_pop(void){ VF_IN(u32, a); VF_IN(u32, b); __CPROVER_assume(a < 7 && b < 7 && a != b); u32 bad = vf_tree_trk_pop(a, b);\n'
+          '  __CPROVER_assert((bad & 1u) == 0, "pop_back moves the last child out, the rest stays");\n' + NOC +
+          'void h_tree_trk_copy(void){ VF_IN(u32, a); VF_IN(u32, b); __CPROVER_assume(a < 7 && b < 7 && a != b); u32 bad = vf_tree_trk_copy(a, b);\n'
+          '  __CPROVER_assert((bad & 1u) == 0, "the copy holds the same values");\n  __CPROVER_assert((bad & 2u) == 0, "the source tree is intact (nothing moved from)");\n'
+          '  __CPROVER_assert(n_copy[a] == m_ncopy[a] + 1 && n_copy[b] == m_ncopy[b] + 1 && c_move == m_move, "copying a tree copies every value exactly once and moves none");\n  VF_PROBE(); }\n')
+    P.generated['c05_tree_h.c'] = ht
+    ut = P.unit('tree', 'tree.cpp', harness=['../C09/harness.c', 'harness.c', 'c05_tree_h.c'], pre=['ghost.h'], inline=True, maxb=32)
+    LIST = 'assumed contracts (executable models, props/C09/harness.c): std::__detail::_List_node_base::_M_hook / _M_unhook / _M_transfer / swap (machine code in libstdc++.so)'
+    for nm, what in (('h_tree_trk_build', 'tree(T&&), push_back(T&&), push_back(tree&&): values moved, never copied'), ('h_tree_trk_move', 'tree(tree&&): values moved, never copied'), ('h_tree_trk_pop', 'pop_back: the child is moved out, never copied'), ('h_tree_trk_copy', 'tree copy construction: every value copied exactly once, source intact')):
+        ut.lemma(nm, cls='B', unwind=3, unwind_files={'harness.c': 10}, mem=24, bound='trees of at most 3 nodes of instrumented values', backends=['sat'], cbmc=['--slice-formula'], timeout=1200, what=what, assumed=[LIST], native=False)
     return P
